@@ -62,13 +62,16 @@ ObsLC(o, spec) ==
 ObsWorld(p, spec, pre, u) ==
   LET cur == ObsSet(p.vs.cur, spec.vs.cur)
       cx  == IF cur.vals = spec.vs.cur.vals THEN spec.cx ELSE Cx(cur)
+      lco == ObsLC(p.lc, spec.lc)
+      \* the ghosts of the boundary (seen commit, late messages) follow the spec only while spec and code are at the same boundary
+      inStep == spec.h = p.h /\ ~lco.nil /\ ~spec.lc.nil /\ DOMAIN spec.seen.votes = lco.cx.V
   IN [ h    |-> p.h,
        s    |-> ObsNode(p.node, cx, IF spec.h = p.h THEN spec.s ELSE NInit(cx)),
        cx   |-> cx,
        vs   |-> [last |-> ObsSet(p.vs.last, spec.vs.last), cur |-> cur, next |-> ObsSet(p.vs.next, spec.vs.next), lhvc |-> p.vs.lhvc],
        rv   |-> ObsSet(p.rv, spec.rv),
-       lc   |-> ObsLC(p.lc, spec.lc),
-       seen |-> spec.seen, late |-> spec.late,
+       lc   |-> lco,
+       seen |-> IF inStep THEN spec.seen ELSE lco.vs, late |-> IF inStep THEN spec.late ELSE << >>,
        dec  |-> [i \in DOMAIN p.dec |-> [v |-> p.dec[i].v, r |-> p.dec[i].r]] \o << >>,
        app  |-> IF p.h = pre.h + 1 THEN Append(pre.app, u) ELSE pre.app,
        gen  |-> pre.gen, skip |-> pre.skip, early |-> spec.early ]
